@@ -146,6 +146,11 @@ func cmdCheck(args []string) {
 		if *only != "" && hs.Name != *only {
 			continue
 		}
+		if len(violLines) > 0 && os.Getenv("VERIF_KEEP_GOING") == "" {
+			// a reproduced, unlisted violation decides the verdict: the remaining harnesses are not run
+			fmt.Printf("harness %-28s skipped (a violation was already reproduced)\n", hs.Name)
+			continue
+		}
 		if *tier != "thorough" && hs.Quick == nil && hs.Thorough != nil {
 			continue // configuration registered for the thorough tier only
 		}
